@@ -74,6 +74,17 @@ def replay_lbasis(sp):
             got = float(np.asarray(a[0], dtype=float).reshape(-1)[0])
             req = float(np.asarray(b[0], dtype=float).reshape(-1)[0])
             got += float(np.abs(np.asarray(a[1], dtype=float) - np.asarray(b[1], dtype=float)).max())
+        elif cl == "alias":
+            e1 = make_element(sp["element"])
+            q = p + 0.17 * (1 + np.arange(d)) / (1 + d)
+            Xa = np.array([[v, v + .01] for v in p], dtype=float)
+            Xb = np.array([[v, v + .02] for v in q], dtype=float)
+            r1 = e1.lbasis(Xa, i)
+            keep = [np.array(u, dtype=float).copy() for u in r1[:2]]
+            e1.lbasis(Xb, i)
+            e1.lbasis(Xb, (i + 1) % int(e1._bfun_counts().sum()))
+            got = float(sum(np.abs(np.asarray(u, dtype=float) - c).max() for u, c in zip(r1[:2], keep)))
+            req = 0.0
         elif cl == "kron":
             j = sp["j"]
             loc = np.asarray(e.doflocs, dtype=float)[j]
